@@ -138,15 +138,22 @@ fn convert_dockerignore_glob(glob: &str, file_path: &Path) -> Result<Regex, Erro
     // a leading separator anchors nothing here: drop it before the text is translated
     let glob = glob.trim_start_matches(['/', '\\']);
 
-    // `**` is any run of characters, `*` a run within one path component, `?` one character
-    // of a component; every other character stands for itself
+    // `**/` is any number of whole directories (none included), `**` any run of characters,
+    // `*` a run within one path component, `?` one character of a component; every other
+    // character stands for itself. A trailing slash only says that the pattern names a directory
+    let glob = glob.trim_end_matches('/');
     let mut pattern = String::new();
     let mut chars = glob.chars().peekable();
     while let Some(c) = chars.next() {
         match c {
             '*' if chars.peek() == Some(&'*') => {
                 chars.next();
-                pattern.push_str(".*");
+                if chars.peek() == Some(&'/') {
+                    chars.next();
+                    pattern.push_str("([^/]+/)*");
+                } else {
+                    pattern.push_str(".*");
+                }
             }
             '*' => pattern.push_str("[^/]*"),
             '?' => pattern.push_str("[^/]"),
@@ -164,7 +171,13 @@ fn convert_dockerignore_glob(glob: &str, file_path: &Path) -> Result<Regex, Erro
     #[cfg(not(windows))]
     let path = file_path.to_string_lossy().to_string();
 
-    pattern = regex::escape(&path).add("/([^/]+/)*").add(&pattern);
+    // a .dockerignore pattern starts at the context root (`*.log` is not `src/x.log`: that is
+    // `**/*.log`) and covers whole path components: what it matches and everything below it
+    pattern = String::from("^")
+        .add(&regex::escape(&path))
+        .add("/")
+        .add(&pattern)
+        .add("(/|$)");
 
     Regex::new(&pattern)
 }
